@@ -20,6 +20,8 @@ def run(chk):
     mons = [("contiguous", T.mon_contiguous)]
     T.campaign(chk, 600 if thorough else 150, "frag", mons)
     T.campaign(chk, 300 if thorough else 60, "mixed", mons)
+    # every short history, systematically (depth 4 in the quick tier: 9520 histories; depth 5 in the thorough tier)
+    T.exhaustive(chk, 5 if thorough else 4, mons)
     extra(chk, thorough)
     chk.assumptions = ["events are injected at quiescent points of the asyncio loop only (cancellation / I/O landing between two "
                        "loop iterations of one settle is outside the model)", "CPython asyncio Lock/Event/Future and async_timeout "
